@@ -86,6 +86,15 @@ Definition col_ok (L : layout) (f : string) (lo hi : nat) : bool :=
   | None => false
   end.
 
+(* the layout writes field f through numericField only, and has no hand-modelled accessor: storing a
+   non-negative Go int into f keeps a fitting record fitting *)
+Definition plain_num_layout (L : layout) (f : string) : bool :=
+  forallb (fun s => match s with
+                    | SLit _ | SNum _ _ => true
+                    | SAlpha g _ | SStr g _ | SRaw g | SItoa g => negb (String.eqb g f)
+                    | SCustom _ _ | SUnknown _ => false
+                    end) (l_segs L).
+
 Definition pow10 (w : nat) : Z := Z.of_N (p10 w).
 
 Section WithLayouts.
@@ -97,6 +106,13 @@ Definition cols_ok (kinds : list string) (cs : list (string * (nat * nat))) : bo
                     | None => false
                     end) kinds.
 Definition count_cols_ok : bool := cols_ok batch_ctl_kinds batch_ctl_cols && cols_ok file_ctl_kinds file_ctl_cols.
+
+Definition plain_ok (kinds : list string) (cs : list (string * (nat * nat))) : bool :=
+  forallb (fun k => match layout_of T k with
+                    | Some L => forallb (fun p => plain_num_layout L (fst p)) cs
+                    | None => false
+                    end) kinds.
+Definition count_fields_plain : bool := plain_ok batch_ctl_kinds batch_ctl_cols && plain_ok file_ctl_kinds file_ctl_cols.
 
 (* ------------------------------------------------------------------ *)
 (* shape of the tree: the record-type digit of every record's layout     *)
